@@ -131,7 +131,10 @@ def parse_stmt(s, i):
         if not handlers:
             raise Untranslatable("`try` without `catch`")
         return [("try", body, handlers)], j
-    for kw in ("do", "switch", "goto", "return", "throw", "case", "default", "else", "catch"):
+    if keyword_at(s, i, "throw"):
+        j = s.index(";", i)
+        return [("throw", s[i + 5:j])], j + 1
+    for kw in ("do", "switch", "goto", "return", "case", "default", "else", "catch"):
         if keyword_at(s, i, kw):
             raise Untranslatable("unsupported statement `%s`" % kw)
     for kw in ("break", "continue"):
